@@ -9,6 +9,7 @@
 use vstd::prelude::*;
 use vstd::std_specs::cmp::*;
 use std::cmp::{self, Ordering};
+use std::mem;
 
 verus! {
 
@@ -292,6 +293,40 @@ impl Prioritize {
     //@loop 0         *self == *old(self),
     //@loop 0     ensures stream.pending_send@.len() == 0,
     //@loop 0     decreases stream.pending_send@.len(),
+    //@end
+
+    //@extract src/proto/streams/prioritize.rs Prioritize::reclaim_frame_inner
+    //@subst reclaim_frame_inner<B>(=>reclaim_frame_inner(
+    //@subst buffer: &mut Buffer<Frame<B>>=>buffer: &mut Buffer
+    //@subst store: &mut Store=>store: &mut Stream
+    //@subst frame: frame::Data<Prioritized<B>>=>frame: frame::Data<Prioritized>
+    //@subst_re \)\s*->\s*bool\s*where\s*B:\s*Buf,=>) -> bool
+    //@subst InFlightData::Nothing => panic!("wasn't expecting a frame to reclaim"), ==>> InFlightData::Nothing => { assert(false); return false; }
+    //@subst_re let mut frame = frame\.map\(\|prioritized\| \{.*?\}\);=>let (mut frame, e2) = unwrap_prioritized(frame); eos = e2;
+    //@subst let mut stream = store.resolve(key);=>
+    //@subst self.push_back_frame(frame.into(), buffer, &mut stream);=>self.push_back_frame(Frame::Data(frame), buffer, store);
+    //@ret r
+    //@spec     requires
+    //@spec         // the caller (buffer_pending) recorded which stream's DATA frame it handed to the codec
+    //@spec         old(self).in_flight_data_frame != InFlightData::Nothing,
+    //@spec         old(self).in_flight_data_frame matches InFlightData::DataFrame(k) ==> k == frame.data.stream,
+    //@spec         // `store` resolves that key; a stream whose DATA was in the codec has been opened
+    //@spec         old(store).key == frame.data.stream && !old(store).is_pending_open,
+    //@spec     ensures
+    //@spec         final(self).in_flight_data_frame == InFlightData::Nothing,
+    //@spec         final(self).flow == old(self).flow,
+    //@spec         // the queue was cleared meanwhile (reset): the frame is dropped, nothing is re-queued
+    //@spec         old(self).in_flight_data_frame == InFlightData::Drop ==> !r && *final(store) == *old(store),
+    //@spec         // fully written: nothing to re-queue
+    //@spec         old(self).in_flight_data_frame != InFlightData::Drop && frame.data.inner_rem == 0 ==> !r && *final(store) == *old(store),
+    //@spec         // partially written: the unsent tail goes back to the FRONT of its stream's queue, with the original
+    //@spec         // END_STREAM if the queued frame had it
+    //@spec         old(self).in_flight_data_frame != InFlightData::Drop && frame.data.inner_rem > 0 ==> r
+    //@spec             && final(store).pending_send@.len() == old(store).pending_send@.len() + 1
+    //@spec             && final(store).pending_send@.subrange(1, final(store).pending_send@.len() as int) =~= old(store).pending_send@
+    //@spec             && (final(store).pending_send@[0] matches Frame::Data(d) && d.data.rem == frame.data.inner_rem
+    //@spec                 && d.eos == (frame.eos || frame.data.end_of_stream) && d.stream_id == frame.stream_id)
+    //@spec             && final(store).send_flow == old(store).send_flow && final(store).buffered_send_data == old(store).buffered_send_data,
     //@end
 }
 
